@@ -9,7 +9,7 @@
 
    The property at full strength,
 
-     forall e t, user_type t -> tx_validate e t = Valid -> SpendOK t          (FULL)
+     forall e t, user_type t -> tx_validate e t = Valid -> SpendOK e t          (FULL)
 
    is FALSE for the code as it is: Bound-typed transactions are exempt from the
    ownership check (C01_user_tx_spendok_refuted and the three witnesses below,
@@ -23,21 +23,23 @@ From Saito Require Import Base TxValid TxValidProofs.
 (* every value-carrying input of an accepted user transaction that is not
    Bound-typed -- Normal, GoldenTicket, Vip and, since the staking branch falls
    through to the common checks, BlockStake -- is spendable in the ledger,
+   is still inside the retention window (block_id + genesis_period >= latest + 1,
+   [so_window]: enforced by Transaction::validate itself since /repo bb88717),
    belongs to the key whose signature authorises the transaction, is referenced
    once, and the transaction does not pay out more than it consumes (sums in
    unbounded N; inputs are real ledger amounts, far below 2^64) *)
 Theorem C01_valid_user_tx_spendok : forall e t,
-  coin_type t -> tx_validate e t = Valid -> SpendOK t.
+  coin_type t -> tx_validate e t = Valid -> SpendOK e t.
 Proof. exact valid_user_spendok. Qed.
 
 (* (FULL) outside the listed class *)
 Theorem C01_valid_tx_spendok_guarded : forall e t,
-  user_type t -> ~ Known_bound_foreign t -> tx_validate e t = Valid -> SpendOK t.
+  user_type t -> ~ Known_bound_foreign t -> tx_validate e t = Valid -> SpendOK e t.
 Proof. exact valid_user_spendok_guarded. Qed.
 
 (* ... and inside it everything but ownership still holds *)
 Theorem C01_valid_tx_spendok_but_owner : forall e t,
-  user_type t -> tx_validate e t = Valid -> SpendOK_but_owner t.
+  user_type t -> tx_validate e t = Valid -> SpendOK_but_owner e t.
 Proof. exact valid_user_but_owner. Qed.
 
 (* BlockStake transactions: SpendOK, and the staking rules: only BlockStake / Normal
@@ -46,14 +48,15 @@ Proof. exact valid_user_but_owner. Qed.
    (is_slip_unlocked), its key is set and encodes its amount, no input (zero-amount
    ones included) is named twice *)
 Theorem C01_stake_tx_ok : forall e t,
-  t_type t = TStake -> tx_validate e t = Valid -> SpendOK t /\ StakeOK e t.
+  t_type t = TStake -> tx_validate e t = Valid -> SpendOK e t /\ StakeOK e t.
 Proof. exact valid_stake. Qed.
 
-(* a new NFT: full SpendOK (its single input is a Normal output of the signer), and
-   the NFT id written into the third output names exactly the consumed output *)
+(* a new NFT: full SpendOK (its single input is a Normal output of the signer), the
+   NFT id written into the third output names exactly the consumed output, and the
+   outputs after the three NFT slips are Normal slips (/repo 5a3c1b6) *)
 Theorem C01_bound_create_ok : forall e t,
   t_type t = TBound -> is_new_nft t = true -> tx_validate e t = Valid ->
-  SpendOK t /\ CreateOK t.
+  SpendOK e t /\ CreateOK t.
 Proof. exact valid_bound_create. Qed.
 
 (* a transfer of an NFT: inputs spendable, distinct, no inflation counting Bound slips
@@ -65,16 +68,17 @@ Proof. exact valid_bound_create. Qed.
    or of the further Normal inputs. *)
 Theorem C01_bound_send_guarantees : forall e t,
   t_type t = TBound -> is_new_nft t = false -> tx_validate e t = Valid ->
-  SpendOK_but_owner t /\ SendOK e t.
+  SpendOK_but_owner e t /\ SendOK e t.
 Proof. exact valid_bound_send. Qed.
 
-(* the pool applies the same gate and admits no producer-only transaction type *)
+(* the pool applies the same gate and admits no producer-only transaction type (nor, since
+   /repo 9879695, a staking transaction spending outputs of another key than the node's) *)
 Theorem C01_pool_gate : forall e t, pool_gate e t = true ->
   t_type t <> TFee /\ t_type t <> TATR /\ t_type t <> TSPV /\ tx_validate e t = Valid.
 Proof. exact pool_gate_types. Qed.
 
 Corollary C01_pool_user_tx_spendok : forall e t,
-  coin_type t -> pool_gate e t = true -> SpendOK t.
+  coin_type t -> pool_gate e t = true -> SpendOK e t.
 Proof. intros e t Hu Hp. apply (valid_user_spendok e); [exact Hu|]. now destruct (pool_gate_types e t Hp) as (_ & _ & _ & H). Qed.
 
 (* block validation: every transaction of an accepted block validates ... *)
@@ -93,8 +97,40 @@ Theorem C01_block_stake_tx : forall e id txs,
   block_txs_ok e id txs = true -> e_stake_req e <> 0 -> 1 < id ->
   (e_ovf e = true \/ stake_count txs < 256) ->
   stake_count txs = 1 /\
-  forall t, In t txs -> t_type t = TStake -> SpendOK t /\ StakeOK e t.
+  forall t, In t txs -> t_type t = TStake -> SpendOK e t /\ StakeOK e t.
 Proof. exact block_stake_tx. Qed.
+
+(* the retention-window clause at full strength, for EVERY accepted user transaction (Bound-typed
+   ones included): each input that carries an amount and is not a Bound slip was created by a
+   block b with b + genesis_period >= latest + 1, i.e. it has not yet reached the block that
+   rebroadcasts or collects it.  What remains for Bound slips: they are exempt from this test
+   (as from the duplicate tests); of a Bound input with an amount validation only establishes
+   that the ledger holds it ([sb_spendable]) -- the ledger drops an NFT triple when the
+   rebroadcast re-issues it, which is property C13's matter -- and of a zero-amount Bound slip
+   nothing at all. *)
+Theorem C01_inputs_inside_window : forall e t,
+  user_type t -> tx_validate e t = Valid ->
+  forall s, In s (t_from t) -> 0 < sl_amount s -> sl_type s <> SBound ->
+  e_latest e + 1 <= sl_bid s + e_gp e.
+Proof.
+  intros e t Hu H s Hin Ha Hb. destruct (valid_user_but_owner e t Hu H) as [_ _ _ Hw _ _].
+  apply (Hw s Hin). unfold value_input. apply andb_true_iff. split.
+  - now apply N.ltb_lt.
+  - apply negb_true_iff. now apply N.eqb_neq.
+Qed.
+
+(* the edge: tip 9, genesis period 4; an output of block 6 can be spent in block 10, one of
+   block 5 (still in the ledger: block 10 is the one that rebroadcasts it) cannot *)
+Example C01_window_edge :
+  let e := mkEnv 0 true 9 4 1 in
+  let tx b := mkTx TNormal [nslip 5 700 11 b 0 0] [oslip 5 700 SNormal] true true true in
+  tx_validate e (tx 6) = Valid /\ tx_validate e (tx 5) = Invalid /\ tx_validate e (tx 1) = Invalid
+  /\ tx_validate e (mkTx TBound [bslip 5 1 21 true 2 3 0; nslip 5 300 22 2 3 1; bslip 77 0 0 false 2 3 2]
+                     [oslip 5 1 SBound; oslip 5 300 SNormal; oslip 77 0 SBound] true true true) = Invalid
+  (* a peer-chosen block_id near 2^64: the sum saturates (/repo 8712765); the ledger look-up refuses it *)
+  /\ tx_validate e (mkTx TNormal [mkSlip 5 700 SNormal 11 false 18446744073709551615 0 0 false 700 0 0 0]
+                     [oslip 5 700 SNormal] true true true) = Invalid.
+Proof. repeat split; vm_compute; reflexivity. Qed.
 
 (* ------------------------------------------------------------------ refuted *)
 
@@ -118,12 +154,12 @@ Proof. repeat split; try (vm_compute; reflexivity).
 
 (* hence (FULL) fails *)
 Theorem C01_user_tx_spendok_refuted : exists e t,
-  user_type t /\ tx_validate e t = Valid /\ ~ SpendOK t.
+  user_type t /\ tx_validate e t = Valid /\ ~ SpendOK e t.
 Proof.
   exists env0, W_foreign. split; [|split].
   - repeat split; vm_compute; discriminate.
   - vm_compute. reflexivity.
-  - intros [_ _ _ Hown _ _].
+  - intros [_ _ _ Hown _ _ _].
     specialize (Hown (nslip 6 2000 23 1 8 0) ltac:(cbn; tauto) ltac:(vm_compute; reflexivity)).
     vm_compute in Hown. discriminate.
 Qed.
@@ -158,6 +194,7 @@ Theorem C01_signature_does_not_bind_inputs : forall e t t',
   t_sig_ok t' = t_sig_ok t -> t_has_hash t' = t_has_hash t -> t_path_ok t' = t_path_ok t ->
   nodupb (value_keys t') = true ->
   forallb slip_validate (t_from t') = true ->
+  age_check (e_gp e) (e_next e) (t_from t') = true ->
   tx_validate e t = Valid -> tx_validate e t' = Valid.
 Proof. exact signature_does_not_bind_inputs. Qed.
 
@@ -165,12 +202,29 @@ Example C01_replay_refuted : exists t t',
   signed_content t' = signed_content t /\ t_sig_ok t' = t_sig_ok t
   /\ tx_validate env0 t = Valid /\ tx_validate env0 t' = Valid
   /\ value_keys t = [41] /\ value_keys t' = [42]
-  /\ SpendOK t'.
+  /\ SpendOK env0 t'.
 Proof.
   exists (mkTx TNormal [nslip 6 3000 41 1 12 0] [oslip 5 150 SNormal; oslip 6 2850 SNormal] true true true),
          (mkTx TNormal [nslip 6 3000 42 1 13 0] [oslip 5 150 SNormal; oslip 6 2850 SNormal] true true true).
   repeat (split; [vm_compute; reflexivity|]).
   apply (valid_user_spendok env0); [repeat split; vm_compute; discriminate|vm_compute; reflexivity].
+Qed.
+
+(* listed finding signed-bytes-not-delimited: key 6 signs from=[a] to=[change 2000 to itself (index 0),
+   150 to key 5 (index 1)]; the same signed bytes read as from=[a; b'] to=[150 to key 5 (still index 1)]
+   with b' another unspent 2000 of key 6 at slip index 0: valid, all inputs owned by the signer
+   (SpendOK holds formally), and 4000 instead of nothing go to the producer as fee *)
+Example C01_resplit_refuted : exists t t',
+  signed_flat t' = signed_flat t /\ t_sig_ok t' = t_sig_ok t
+  /\ tx_validate env0 t = Valid /\ tx_validate env0 t' = Valid /\ pool_gate env0 t' = true
+  /\ value_keys t = [41] /\ value_keys t' = [41; 42]
+  /\ total_fees t = 0 /\ total_fees t' = 4000.
+Proof.
+  exists (mkTx TNormal [nslip 6 2150 41 1 12 0]
+            [mkSlip 6 2000 SNormal 0 false 0 0 0 false 2000 0 0 0; mkSlip 5 150 SNormal 0 false 0 0 1 false 150 0 0 0] true true true),
+         (mkTx TNormal [nslip 6 2150 41 1 12 0; nslip 6 2000 42 1 13 0]
+            [mkSlip 5 150 SNormal 0 false 0 0 1 false 150 0 0 0] true true true).
+  repeat split; vm_compute; reflexivity.
 Qed.
 
 (* listed finding (type-issuance-pool): an issuance-type transaction without inputs,
@@ -209,16 +263,16 @@ Proof. vm_compute. reflexivity. Qed.
 Example C01_stake_example :
   let t := mkTx TStake [nslip 5 700 11 1 0 0; mkSlip 5 300 SStake 12 true 3 1 0 true 300 0 0 0]
                        [oslip 5 600 SStake; oslip 5 400 SNormal] true true true in
-  tx_validate (mkEnv 600 true) t = Valid /\ tx_validate (mkEnv 601 true) t = Invalid.
+  tx_validate (mkEnv 600 true 3 100 1) t = Valid /\ tx_validate (mkEnv 601 true 3 100 1) t = Invalid.
 Proof. split; vm_compute; reflexivity. Qed.
 (* ... rejected when an input is locked, when the signer does not own an input, unsigned *)
 Example C01_stake_rejections :
   let outs := [oslip 5 600 SStake; oslip 5 400 SNormal] in
-  tx_validate (mkEnv 600 true)
+  tx_validate (mkEnv 600 true 3 100 1)
     (mkTx TStake [nslip 5 700 11 1 0 0; mkSlip 5 300 SStake 12 true 3 1 0 false 300 0 0 0] outs true true true) = Invalid
-  /\ tx_validate (mkEnv 600 true) (mkTx TStake [nslip 5 700 11 1 0 0; nslip 6 300 12 1 1 0] outs true true true) = Invalid
-  /\ tx_validate (mkEnv 600 true) (mkTx TStake [nslip 5 700 11 1 0 0; nslip 5 300 12 1 1 0] outs false true true) = Invalid
-  /\ tx_validate (mkEnv 0 true) (mkTx TStake [] [oslip 5 600 SStake] true true true) = Invalid.
+  /\ tx_validate (mkEnv 600 true 3 100 1) (mkTx TStake [nslip 5 700 11 1 0 0; nslip 6 300 12 1 1 0] outs true true true) = Invalid
+  /\ tx_validate (mkEnv 600 true 3 100 1) (mkTx TStake [nslip 5 700 11 1 0 0; nslip 5 300 12 1 1 0] outs false true true) = Invalid
+  /\ tx_validate (mkEnv 0 true 3 100 1) (mkTx TStake [] [oslip 5 600 SStake] true true true) = Invalid.
 Proof. repeat split; vm_compute; reflexivity. Qed.
 
 (* a new NFT minted from output (1, 4, 0), and its transfer by the creator *)
@@ -246,6 +300,7 @@ Proof. repeat split; vm_compute; reflexivity. Qed.
 Print Assumptions C01_valid_user_tx_spendok.
 Print Assumptions C01_valid_tx_spendok_guarded.
 Print Assumptions C01_valid_tx_spendok_but_owner.
+Print Assumptions C01_inputs_inside_window.
 Print Assumptions C01_stake_tx_ok.
 Print Assumptions C01_bound_create_ok.
 Print Assumptions C01_bound_send_guarantees.
